@@ -18,6 +18,8 @@ func main() {
 	}
 	switch os.Args[1] {
 	case "verify":
+		verify2Cmd(os.Args[2:])
+	case "verify-seq":
 		verifyCmd(os.Args[2:])
 	case "check":
 		checkCmd(os.Args[2:])
